@@ -122,6 +122,15 @@ def directed_cases():
           ("f", "f", "u", "v", ("seq", st("loc", ("nary", "*", "u", (P(0), I_(10)))), ("call", "bump", (("varref", "loc"),)),
                                 ("if", eq(P(0), I_(0)), ("return", I_(0)), ("return", add(("call", "f", (sub(P(0), I_(1)),)), ld("loc"))))))],
          [L(("call", "f", (I_(2),))), L(sub(I_(100), ("call", "f", (I_(1),))))])
+    # diamond recursion: hub -> left -> shared -> hub and hub -> right -> shared -> hub; BOTH of hub's calls are re-entrant (each path back to
+    # hub runs through `shared`), so hub's live parameter / local must be saved around both
+    case("diamond-recursion",
+         [("shared", "shared", "u", "v", ("if", eq(P(0), I_(0)), ("return", I_(0)), ("return", ("call", "hub", (sub(P(0), I_(1)),))))),
+          ("left", "left", "u", "v", ("return", add(("call", "shared", (P(0),)), I_(1)))),
+          ("right", "right", "u", "v", ("return", add(("call", "shared", (P(0),)), I_(100)))),
+          ("hub", "hub", "u", "v", ("seq", st("hloc", ("nary", "*", "u", (P(0), I_(7)))),
+                                    ("return", add(("call", "left", (P(0),)), ("call", "right", (P(0),)), ld("hloc"), P(0)))))],
+         [L(("call", "hub", (I_(2),))), L(("call", "hub", (I_(0),)))])
     # bytes-returning routine, zero arguments, odd name
     case("bytes-noargs",
          [("greet", "say hi!", "b", "", ("return", ("nary", "concat", "b", (("op", "byte", ("0x6869",), "b", ()), ("op", "itob", (), "b", (I_(7),))))))],
